@@ -378,7 +378,7 @@ func init() {
 		},
 		Real:        []string{"smtp.Server.Serve/handleConn/Close", "smtp.Conn command loop, Close, reset, handleStartTLS, panic recovery", "BDAT delivery goroutine", "crypto/tls (kind 7)", "net/textproto", "bufio"},
 		Stub:        []string{"net.Listener (SimListener)", "net.Conn (SimConn) with cut/RST/half-close/stall", "Backend/Session (SimBackend, panics and parks from the plan)", "clock (synctest)", "SMTP client (raw driver)"},
-		Assumptions: []string{"commands fully received before a peer disconnect may legitimately run; a final line cut before its CRLF is not judged", "callback order is the order in which callbacks began (global sequence number taken on entry)"},
+		Assumptions: []string{"a write without a deadline issued while Conn.locker is held is reported as a connection that Server.Close can no longer end", "commands fully received before a peer disconnect may legitimately run; a final line cut before its CRLF is not judged", "callback order is the order in which callbacks began (global sequence number taken on entry)"},
 		Required:    []string{"commands_buffered_behind_the_ending", "server_close_lands_inside_NewSession", "logout_parked_during_starttls", "server_closed_connection_QUIT", "server_closed_connection_error-flood", "server_closed_connection_over-long-line", "server_closed_connection_idle-timeout", "server_closed_connection_backend-panic", "server_closed_connection_Server.Close", "server_closed_connection_STARTTLS-vs-Close", "reply_write_failed", "cut_fin", "cut_rst", "logout_returns_an_error", "read_timeout_in_the_middle_of_a_command_line", "reply_write_blocked_peer_not_reading", "blocked_write_ended_by_WriteTimeout"},
 		QuickRuns:   700, ThoroughRuns: 40000,
 	})
